@@ -917,7 +917,10 @@ class Engine:
                 eng.externals_used.add(label)
                 s.log_event(attr, [a for a in args[1:] if not isinstance(a, (SFunc, SBuiltin))])
                 return eng.external_outcomes(s, attr, label)
-            return [(st, SBuiltin(label, ext, self_val=v))]
+            b = SBuiltin(label, ext, self_val=v)
+            # used as a VALUE (not called), the attribute is an opaque value that is a function of the object: x.buf twice is the same thing
+            b.as_value = SOpaque(OPQ_ATTR(v.t, z3.StringVal(attr)), label=label)
+            return [(st, b)]
         if isinstance(v, SNone) and not self.pure:
             return [(self.raise_(st, "AttributeError", f"'NoneType' object has no attribute '{attr}'"), None)]
         raise Unsupported(f"attribute {attr} on {type(v).__name__} at {self.loc(node)}")
@@ -1723,6 +1726,10 @@ class Engine:
                 raise Unsupported("except clause with non-class")
             names.append(v.ci)
         return any(self.reg.is_subclass(exc.ci, c) for c in names)
+
+
+OPQ_ATTR = z3.Function("opq_attr", sym.IntS, sym.StrS, sym.IntS)
+OPQ_SLICE = z3.Function("opq_slice", sym.IntS, Val, Val, sym.IntS)
 
 
 class SExcVal(SV):
